@@ -437,8 +437,10 @@ func (ega *EnhancedGroupAggregator) AddPostAggregationExpression(outputField, or
 			}
 		}
 
-		// Check if input field is an expression (contains function calls)
-		isInputExpression := strings.Contains(field.InputField, "(") && strings.Contains(field.InputField, ")")
+		// Check if input field is an expression: a function call, or arithmetic on
+		// columns such as SUM(v*2) inside a compound item (a bare "*" is count(*))
+		isInputExpression := (strings.Contains(field.InputField, "(") && strings.Contains(field.InputField, ")")) ||
+			(strings.TrimSpace(field.InputField) != "*" && strings.ContainsAny(field.InputField, "+-*/%"))
 
 		// If input expression itself contains aggregation calls, skip creating an aggregator for this field
 		// Use dynamic function registry instead of hardcoded list
@@ -501,13 +503,16 @@ func (ega *EnhancedGroupAggregator) AddPostAggregationExpression(outputField, or
 			if isInputExpression && !containsAggCall(field.InputField) {
 
 				bridge := functions.GetExprBridge()
+				// per-iteration copy: with go 1.18 loop semantics the closure would
+				// otherwise evaluate the input of the LAST required field for every one
+				inputExpr := field.InputField
 				ega.GroupAggregator.RegisterExpression(
 					field.Placeholder,
 					field.InputField,
 					[]string{}, // Will be populated by expression parsing
 					func(data any) (any, error) {
 						if dataMap, ok := data.(map[string]any); ok {
-							result, err := bridge.EvaluateExpression(field.InputField, dataMap)
+							result, err := bridge.EvaluateExpression(inputExpr, dataMap)
 
 							return result, err
 						}
